@@ -11,9 +11,12 @@
        component named by a declaration statement EARLIER in the linear order of
        the blocks, or a local (or undeclared) name that is not assigned by that
        statement or a later one;
-     - a local has a single defining assignment ([ldefs_unique]).
+     - a local has a single defining assignment ([ldefs_unique]);
+     - a phi occurs only as the whole right-hand side of an assignment
+       ([phi_top_stmt]: SSA conversion only inserts statements `x = phi(..)`; the
+       validator accepts no claim on a phi below the top of a statement).
    Only the static signature of a statement ([ssig]: target, local mark, declared
-   names, update bases) enters the last four.
+   names, update bases) enters the second to the fifth.
    Definitions only. *)
 From Coq Require Import ZArith NArith List Bool.
 Require Import Model.Base Model.Ir Model.Propagate Model.Justify Model.DegJustify.
@@ -54,6 +57,35 @@ Definition stmt_exprs (s : stmt) : list expr :=
   end.
 
 Definition clean_deg_stmt (s : stmt) : bool := forallb clean_deg_expr (stmt_exprs s).
+
+(* no phi anywhere in the expression *)
+Fixpoint phi_free (e : expr) {struct e} : bool :=
+  let fix pf_list (es : list expr) : bool :=
+      match es with [] => true | x :: tl => phi_free x && pf_list tl end in
+  let fix pf_acc (acc : list (access expr)) : bool :=
+      match acc with
+      | [] => true
+      | AIdx x :: tl => phi_free x && pf_acc tl
+      | AComp _ :: tl => pf_acc tl
+      end in
+  match e with
+  | ENum _ _ | EVar _ _ => true
+  | EPhi _ _ => false
+  | EInfix _ l r _ => phi_free l && phi_free r
+  | EPrefix _ x _ => phi_free x
+  | ESwitch c t f _ => phi_free c && phi_free t && phi_free f
+  | ECall _ args _ => pf_list args
+  | EArray vs _ => pf_list vs
+  | EAccess _ acc _ => pf_acc acc
+  | EUpdate _ acc rhe _ => phi_free rhe && pf_acc acc
+  end.
+
+(* a phi only as the whole right-hand side of an assignment *)
+Definition phi_top_stmt (s : stmt) : bool :=
+  match s with
+  | SSubst _ _ _ (EPhi _ _) _ _ => true
+  | _ => forallb phi_free (stmt_exprs s)
+  end.
 
 (* the arrays read by element-wise updates anywhere in an expression *)
 Fixpoint update_bases (e : expr) {struct e} : list vname :=
@@ -127,4 +159,4 @@ Fixpoint sgs_wf (c : cfg) (before l : list ssg) : bool :=
 
 Definition deg_wf (c : cfg) : bool :=
   let ss := all_stmts (c_blocks c) in
-  forallb clean_deg_stmt ss && sgs_wf c [] (map ssig ss) && ldefs_unique ss.
+  forallb clean_deg_stmt ss && sgs_wf c [] (map ssig ss) && ldefs_unique ss && forallb phi_top_stmt ss.
